@@ -333,6 +333,36 @@ def tailcall_program(rng, feats):
     return "\n".join(src) + "\n", "\n".join(flat) + "\n"
 
 
+def deep_definer_program(rng, feats):
+    """macro definitions nested three deep (each level takes a parameter used by the innermost body)"""
+    src = ["@macro L1, 1, A1", "@db A1", "@macro L2, 1, A2", "@db A1, A2", "@macro L3, 1, A3", "@db A1, A2, A3", "@endmacro", "@db $d2", "@endmacro", "@db $d1", "@endmacro"]
+    flat = []
+    a1, a2, a3 = (str(rng.randint(1, 9)) for _ in range(3))
+    src += [f"L1 {a1}", f"L2 {a2}", f"L3 {a3}", f"L3 {a1}"]
+    flat += [f"@db {a1}", "@db $d1", f"@db {a1}, {a2}", "@db $d2", f"@db {a1}, {a2}, {a3}", f"@db {a1}, {a2}, {a1}"]
+    feats["nested_three_deep"] = feats.get("nested_three_deep", 0) + 1
+    return "\n".join(src) + "\n", "\n".join(flat) + "\n"
+
+
+def multiline_args_program(rng, feats):
+    """line breaks and comments between the arguments of an invocation (outside braces) are skipped"""
+    src = ["@macro PAIR, 2, PX, PY", "@db PX", "@db $60", "@db PY", "@endmacro", "@macro TRI, 3, PX, PY, PZ", "@db PX, PY, PZ", "@endmacro"]
+    flat = []
+    for _ in range(rng.randint(1, 3)):
+        x, y, z = (rng.choice(["$11", "7", "{ 1 + 2 }", "$22"]) for _ in range(3))
+        gap = lambda: rng.choice([" ", " ; note\n  ", "\n", "\n\n   ", " ; a\n ; b\n "])
+        if rng.random() < 0.5:
+            src.append(f"PAIR {x},{gap()}{y}")
+            flat += [f"@db {x.strip('{} ')}", "@db $60", f"@db {y.strip('{} ')}"]
+        else:
+            src.append(f"TRI {x},{gap()}{y},{gap()}{z}")
+            flat.append(f"@db {x.strip('{} ')}, {y.strip('{} ')}, {z.strip('{} ')}")
+        src.append("@db $fd")
+        flat.append("@db $fd")
+        feats["args_over_lines"] = feats.get("args_over_lines", 0) + 1
+    return "\n".join(src) + "\n", "\n".join(flat) + "\n"
+
+
 def definer_program(rng, feats):
     """a macro with parameters that defines another macro: the outer parameters are substituted in
     the nested definition's name, parameter count position excluded, and body"""
@@ -405,6 +435,8 @@ def run(tier, seed):
         progs.append(forwarding_program(rng, feats))
         progs.append(definer_program(rng, feats))
         progs.append(tailcall_program(rng, feats))
+        progs.append(deep_definer_program(rng, feats))
+        progs.append(multiline_args_program(rng, feats))
     corner = [
         ("@macro M, 0\n@db 1\n@endmacro\n@macro M, 0\n@db 2\n@endmacro\n", None),   # defining a macro twice is rejected
         ("@macro Z, 0\n@endmacro\nZ\n@db 9\n", "@db 9\n"),
